@@ -204,7 +204,7 @@ def ppo_loss(
     )
 
 
-@partial(nnx.jit, static_argnames="epochs")
+@partial(nnx.jit, static_argnames=("epochs", "n_envs"))
 def update_ppo(
     actor: StochasticPolicyBase,
     critic: nnx.Module,
@@ -216,6 +216,7 @@ def update_ppo(
     terminated: jnp.ndarray,
     next_value: jnp.ndarray,
     epochs: int = 1,
+    n_envs: int = 1,
 ) -> jnp.ndarray:
     """Updates the PPO agent.
 
@@ -237,15 +238,23 @@ def update_ppo(
         Array of predicted next_values per step.
     epochs : int, optional
         Number of training epochs.
+    n_envs : int, optional
+        Number of parallel environments whose rollouts are concatenated
+        (environment after environment) in the flattened arrays. Advantages
+        are estimated separately for each environment.
 
     Returns
     -------
     loss_val : jnp.ndarray
         Calculated loss.
     """
-    advs, returns = compute_gae(
-        reward, critic(observation).flatten(), next_value, terminated
+    advs, returns = jax.vmap(compute_gae)(
+        reward.reshape(n_envs, -1),
+        critic(observation).reshape(n_envs, -1),
+        next_value.reshape(n_envs, -1),
+        terminated.reshape(n_envs, -1),
     )
+    advs, returns = advs.reshape(-1), returns.reshape(-1)
     logp = actor.log_probability(observation, action)
     loss_grad_fn = nnx.value_and_grad(ppo_loss, argnums=(0, 1))
 
@@ -354,6 +363,7 @@ def train_ppo(
             terminated,
             next_value,
             epochs,
+            envs.num_envs,
         )
 
         if logger is not None:
